@@ -16,4 +16,5 @@ PROPERTY Adjacent
 PROPERTY NumLang
 PROPERTY ReLang
 PROPERTY Brackets
+PROPERTY DetSound
 CHECK_DEADLOCK FALSE
